@@ -156,6 +156,24 @@ pub fn run(op: &str, a: &Args) -> Option<Args> {
     match op {
         // typed checked constructors: Ok(array) => the array must be valid under the specification
         "c09.typed" => run_typed(a),
+        // typed buffer constructors (they panic unless their invariant holds): [width][values][offset][len] / [width][offsets]
+        "c09.run_end_buffer" => {
+            use arrow_buffer::{RunEndBuffer, ScalarBuffer};
+            let (w, ends, off, len) = (to_usize(&a[0]), to_i64s(&a[1]), to_usize(&a[2]), to_usize(&a[3]));
+            let ok = std::panic::catch_unwind(|| match w {
+                2 => { let _ = RunEndBuffer::new(ScalarBuffer::<i16>::from(ends.iter().map(|x| *x as i16).collect::<Vec<_>>()), off, len); }
+                4 => { let _ = RunEndBuffer::new(ScalarBuffer::<i32>::from(ends.iter().map(|x| *x as i32).collect::<Vec<_>>()), off, len); }
+                _ => { let _ = RunEndBuffer::new(ScalarBuffer::<i64>::from(ends.clone()), off, len); }
+            }).is_ok();
+            Some(vec![g(ok as u8)])
+        }
+        "c09.offset_buffer" => {
+            use arrow_buffer::{OffsetBuffer, ScalarBuffer};
+            let (w, offs) = (to_usize(&a[0]), to_i64s(&a[1]));
+            let ok = std::panic::catch_unwind(|| if w == 4 { let _ = OffsetBuffer::new(ScalarBuffer::<i32>::from(offs.iter().map(|x| *x as i32).collect::<Vec<_>>())); }
+                else { let _ = OffsetBuffer::new(ScalarBuffer::<i64>::from(offs.clone())); }).is_ok();
+            Some(vec![g(ok as u8)])
+        }
         // RecordBatch::try_new_with_options: [row_count?][nfields; ..] fields [type; nullable] columns [type; len; null_count]
         "c09.batch" => {
             use arrow_array::{Array, ArrayRef, RecordBatch, RecordBatchOptions};
@@ -311,6 +329,7 @@ pub fn gen_valid(r: &mut Rng, ty: &Ty, len: usize, no_nulls: bool) -> Node {
             let mut views = vec![0u8; n * 16 + slack];
             for i in 0..n {
                 let mut s = rand_strings(r, 1, *utf8).concat();
+                if r.chance(1, 3) { let want = 9 + r.below(5); while s.len() < want { s.push(b'a' + (s.len() % 7) as u8) } s.truncate(want); if *utf8 { while std::str::from_utf8(&s).is_err() { s.pop(); } } }
                 if nb > 0 && r.chance(1, 2) { while s.len() <= 12 { s.extend_from_slice(b"pad!") } }
                 if s.len() > 12 && nb == 0 { s.truncate(12); if *utf8 { while std::str::from_utf8(&s).is_err() { s.pop(); } } }
                 let mut v: u128 = s.len() as u128;
@@ -445,7 +464,10 @@ pub fn mutate(r: &mut Rng, root: &mut Node) -> &'static str {
         15 => { // corrupt a values byte (UTF-8 boundary cases) in the last buffer
             if n.bufs.len() >= 2 { let b = n.bufs.last_mut().unwrap(); if !b.is_empty() { let i = r.below(b.len()); b[i] = *r.pick(&[0x80u8, 0xC0, 0xFF, 0xE0, 0xF8, 0xED]); return "data_byte" } } "none" }
         16 => { if let Ty::View { .. } = n.ty { if !n.bufs.is_empty() && n.bufs[0].len() >= 16 { let slots = n.bufs[0].len() / 16; let i = r.below(slots);
-                 match r.below(4) { 0 => { n.bufs[0][i * 16] = 13 } 1 => { n.bufs[0][i * 16 + 8] = n.bufs.len() as u8 } 2 => { n.bufs[0][i * 16 + 15] |= 0x40 } _ => { n.bufs[0][i * 16 + 4] ^= 0x55 } }
+                 match r.below(6) { 0 => { n.bufs[0][i * 16] = 13 } 1 => { n.bufs[0][i * 16 + 8] = n.bufs.len() as u8 } 2 => { n.bufs[0][i * 16 + 15] |= 0x40 }
+                     3 | 4 => { // one padding byte of an inline view made non-zero (any position from the first to the last padding byte)
+                         let l = n.bufs[0][i * 16] as usize; if n.bufs[0][i * 16 + 1..i * 16 + 4] == [0, 0, 0] && l < 12 { let p = 4 + l + r.below(12 - l); n.bufs[0][i * 16 + p] = 1 + r.below(255) as u8 } }
+                     _ => { n.bufs[0][i * 16 + 4] ^= 0x55 } }
                  return "view_word" } } "none" }
         17 => { if let (Ty::Ree { rw, .. }, false) = (n.ty.clone(), n.kids.is_empty()) { let k = &mut n.kids[0]; if k.len > 0 && !k.bufs.is_empty() && k.bufs[0].len() >= k.len * rw { let i = r.below(k.len);
                  let v: i128 = match r.below(4) { 0 => 0, 1 => -3, 2 => 1, _ => 1000 }; put_le(&mut k.bufs[0], rw, i, v); return "run_end" } } "none" }
@@ -490,6 +512,28 @@ fn has_nulls_misfit(n: &Node) -> bool {
 }
 
 pub fn generate(tier: &str, r: &mut Rng, emit: &mut dyn FnMut(Case)) {
+    // typed buffer constructors
+    for _ in 0..(if tier == "thorough" { 6000 } else { 600 }) {
+        let w = *r.pick(&[2usize, 4, 8]);
+        let tmax: i64 = match w { 2 => i16::MAX as i64, 4 => i32::MAX as i64, _ => i64::MAX };
+        let n = r.below(5);
+        let mut ends: Vec<i64> = Vec::new(); let mut cur = if r.chance(1, 8) { r.range(-2, 0) } else { 0 };
+        for _ in 0..n { cur += if r.chance(1, 10) { 0 } else { 1 + r.below(5) as i64 }; ends.push(cur.min(tmax)); }
+        if r.chance(1, 10) && n > 1 { ends.swap(0, n - 1) }
+        let last = ends.last().copied().unwrap_or(0).max(0) as usize;
+        let (off, len) = match r.below(6) {
+            0 => (0, last), 1 => (r.below(last + 1), 0), 2 => { let o = r.below(last + 1); (o, last - o) }
+            3 => { let o = r.below(last + 2); (o, r.below(last + 3)) }
+            // logical offset + length beyond the run-end type's range (must be rejected, not wrapped)
+            4 => ((tmax as usize).saturating_add(1).saturating_sub(r.below(3)).min(usize::MAX / 4) + if w == 2 { 65536 - 32768 } else { 0 }, r.below(4)),
+            _ => (if w == 2 { 65536 + r.below(3) } else { r.below(4) }, r.below(4)),
+        };
+        emit(Case::new("c09.run_end_buffer", vec![g(w), gs(&ends), g(off), g(len)], &["c09.run_end_buffer.spec"], format!("reb w{w} n{n}")));
+        let m = r.below(6); let mut offs: Vec<i64> = Vec::new(); let mut c = if r.chance(1, 6) { r.range(-3, 3) } else { 0 };
+        for _ in 0..m { offs.push(c); c += if r.chance(1, 8) { -(r.below(3) as i64) } else { r.below(4) as i64 }; }
+        let ow = if r.bool() { 4 } else { 8 };
+        emit(Case::new("c09.offset_buffer", vec![g(ow), gs(&offs)], &["c09.offset_buffer.spec"], format!("ob w{ow} n{m}")));
+    }
     // record batches: schema / column agreement
     for _ in 0..(if tier == "thorough" { 4000 } else { 500 }) {
         let nf = r.below(4); let rows = r.below(6);
